@@ -272,6 +272,49 @@ pub fn run(ctx: &Ctx, evidence: Option<&PathBuf>) -> i32 {
         let s: String = (0..l).map(|_| (0x21 + rng.below(0x5e) as u8) as char).collect();
         dom.extend(case_variants(&s, &mut rng).into_iter().take(2));
     }
+    // near neighbours of the interned names (a second spelling added to the intern table, a lookup
+    // that matches on a prefix or ignores a token, would map one of these onto an interned name):
+    // one `_`-separated token removed or doubled, `HTTP_` / `X_` added or removed, one char dropped
+    if ctx.scale != Scale::Miri {
+        for n in interned_names.iter() {
+            let toks: Vec<&str> = n.split('_').collect();
+            for i in 0..toks.len() {
+                let mut t = toks.clone();
+                t.remove(i);
+                dom.push(t.join("_"));
+                let mut t = toks.clone();
+                t.insert(i, toks[i]);
+                dom.push(t.join("_"));
+            }
+            dom.push(format!("HTTP_{n}"));
+            dom.push(format!("X_{n}"));
+            dom.push(format!("{n}_"));
+            dom.push(format!("_{n}"));
+            if let Some(r) = n.strip_prefix("HTTP_") {
+                dom.push(r.to_string());
+                dom.push(format!("HTTP_X_{r}"));
+            }
+            dom.push(n.replace('_', "-"));
+            dom.push(n.replace('_', ""));
+        }
+    }
+    // pairs that differ only in bit 5 of a NON-letter byte (a case fold done with a bit mask merges
+    // them), and names that differ only by trailing NUL bytes (a zero-padded block comparison
+    // cannot tell them apart)
+    for (a, b) in [('[', '{'), ('@', '`'), ('_', '\u{7f}'), ('^', '~'), ('\\', '|'), (']', '}'), ('1', '\u{11}'), ('0', '\u{10}'), ('-', '\r'), (' ', '\0')] {
+        for ctx_s in ["", "X_", "HTTP_ACCEPT"] {
+            dom.push(format!("{ctx_s}{a}"));
+            dom.push(format!("{ctx_s}{b}"));
+            dom.push(format!("{ctx_s}{a}Y"));
+            dom.push(format!("{ctx_s}{b}Y"));
+        }
+    }
+    for base in ["X_TOKEN", "A", "ABCDEFGHIJKLMNO", "ABCDEFGHIJKLMNOP", "ABCDEFGHIJKLMNOPQ"] {
+        dom.push(base.to_string());
+        dom.push(format!("{base}\0"));
+        dom.push(format!("{base}\0\0"));
+        dom.push(format!("\0{base}"));
+    }
     dom.sort();
     dom.dedup();
     ctx.extra("domain_strings", dom.len());
